@@ -14,6 +14,8 @@
 (*   aggregated  Sum events per (decoder, reader, version, chain type):     *)
 (*               n calls, ok + err = n, and the call with the highest       *)
 (*               peak/bound ratio (wp bytes for wl input bytes)             *)
+(*   Steps       the post-decode steps executed (name, count, count Ok);    *)
+(*               every End names the step in progress when the call ended   *)
 (* A non-conforming End does not stop the validation: TEndBad matches it,   *)
 (* prints it (TRACE-BAD) and counts it, so that one run reports every       *)
 (* distinct violation; acceptance requires bad = 0 and all events matched.  *)
@@ -32,17 +34,18 @@ TBegin == /\ IsEvent("Begin")
           /\ (phase' = "stream") = E.stream
           /\ UNCHANGED bad
 
-Conforms(e) == CallOK(cur.dec, cur.ct, cur.len, e.out, e.consumed, e.reads, e.peak)
+Conforms(e) == CallOK(cur.dec, cur.ct, cur.len, e.out, e.consumed, e.reads, e.peak, e.step)
 
 \* the logged call, replayed on the machine: `reads` Read steps are summarised by their totals
-Finish(e) == /\ last' = [out |-> e.out, used |-> e.consumed, reads |-> e.reads, peak |-> e.peak, len |-> cur.len, dec |-> cur.dec, ct |-> cur.ct]
-             /\ phase' = "idle" /\ cur' = NoCall /\ used' = 0 /\ reads' = 0
+Finish(e) == /\ last' = [out |-> e.out, used |-> e.consumed, reads |-> e.reads, peak |-> e.peak, len |-> cur.len, dec |-> cur.dec, ct |-> cur.ct,
+                          step |-> e.step]
+             /\ phase' = "idle" /\ cur' = NoCall /\ used' = 0 /\ reads' = 0 /\ pstep' = 0
 
 TEnd == /\ IsEvent("End")
         /\ phase \in {"call", "stream"}
         /\ Conforms(E)
         /\ Finish(E)
-        /\ OutcomeOK' /\ ConsumedOK' /\ AllocBounded' /\ Progress'
+        /\ OutcomeOK' /\ ConsumedOK' /\ AllocBounded' /\ Progress' /\ StepKnown'
         /\ UNCHANGED bad
 
 TEndBad == /\ IsEvent("End")
@@ -66,7 +69,24 @@ TSumBad == /\ IsEvent("Sum") /\ phase = "idle"
            /\ PrintT(<<"TRACE-BAD", l>>)
            /\ UNCHANGED vars
 
-TNext == TBegin \/ TEnd \/ TEndBad \/ TSum \/ TSumBad
+\* the executed post-decode steps (name, how often, how often Ok): every one of them is a step of the catalogue
+AllSteps == UNION {StepSet(d) : d \in SegmentDecoders \cup BitmapDecoders \cup BodyDecoders \cup StreamDecoders \cup
+                      {"SegmentRequest::read", "TxKernel::read", "BlockHeader::read", "UntrustedBlockHeader::read", "MerkleProof::read",
+                       "SegmentProof::read", "Hand::read", "Shake::read", "PeerAddrs::read", "PeerAddr::read", "Locator::read",
+                       "TxHashSetArchive::read", "util::from_hex"}}
+StepsOK(e) == /\ Len(e.names) = Len(e.n) /\ Len(e.names) = Len(e.ok)
+              /\ \A i \in 1..Len(e.names) : e.names[i] \in AllSteps /\ e.ok[i] <= e.n[i]
+TSteps == /\ IsEvent("Steps") /\ phase = "idle"
+          /\ StepsOK(E)
+          /\ UNCHANGED <<vars, bad>>
+TStepsBad == /\ IsEvent("Steps") /\ phase = "idle"
+             /\ ~StepsOK(E)
+             /\ bad' = bad + 1
+             /\ TLCSet(1, bad + 1)
+             /\ PrintT(<<"TRACE-BAD", l>>)
+             /\ UNCHANGED vars
+
+TNext == TBegin \/ TEnd \/ TEndBad \/ TSum \/ TSumBad \/ TSteps \/ TStepsBad
 TSpec == TInit /\ [][TNext]_tvars
 
 Accepted == LET d == TLCGet("stats").diameter IN
